@@ -91,52 +91,50 @@ def readArgs (p : P) : Option Err × P :=
   | (none, p) => (some ioErr, p)
   | (some b, p) => if b != 40 then (none, p) else argsLoop cm p.vfuel (reRead p) []
 
+/-- the head shared by `readField` and `readInputField`:
+`if desc, err = p.readDesc(); err == nil { token, err = p.readToken() }; if err == nil { b, err = p.skipSpace() }`
+— (token, b, err); `b` keeps its zero value whenever an error occurred -/
+def fieldHead (p : P) : ((List UInt8 × UInt8) × Option Err) × P :=
+  match readDesc cm p with
+  | (some e, p) => ((([], 0), some e), p)
+  | (none, p) =>
+    match readToken cm p with
+    | ((t, true), p) => (((t, 0), some ioErr), p)
+    | ((t, false), p) =>
+      match skipSp cm p with
+      | (none, p) => (((t, 0), some ioErr), p)
+      | (some b, p) => (((t, b), none), p)
+
+/-- `if b == '(' { if err = p.readArgs(&f.args); err == nil { b, err = p.skipSpace() } }` -/
+def fieldArgs (b : UInt8) (p : P) : (UInt8 × Option Err) × P :=
+  if b == 40 then
+    (match readArgs cm p with
+     | (some e, p) => ((b, some e), p)
+     | (none, p) =>
+       match skipSp cm p with
+       | (none, p) => ((0, some ioErr), p)
+       | (some b, p) => ((b, none), p))
+  else ((b, none), p)
+
 /-- `readField`: `(none, none)` is the Go `nil, nil`; `(some name, none)` a field -/
 def readField (p : P) : (Option (List UInt8) × Option Err) × P :=
-  -- if desc, err = p.readDesc(); err == nil { token, err = p.readToken() }
-  let r1 : (List UInt8 × Option Err) × P :=
-    match readDesc cm p with
-    | (some e, p) => (([], some e), p)
-    | (none, p) =>
-      match readToken cm p with
-      | ((t, true), p) => ((t, some ioErr), p)
-      | ((t, false), p) => ((t, none), p)
-  let tok := r1.1.1
-  -- if err == nil { b, err = p.skipSpace() }
-  let r2 : (UInt8 × Option Err) × P :=
-    match r1.1.2 with
-    | some e => ((0, some e), r1.2)
-    | none =>
-      match skipSp cm r1.2 with
-      | (none, p) => ((0, some ioErr), p)
-      | (some b, p) => ((b, none), p)
-  let b := r2.1.1
-  let p := r2.2
-  if b == 0 then ((none, none), p)
-  else
-    -- b ≠ 0 implies err == nil here
-    let r3 : (UInt8 × Option Err) × P :=
-      if b == 40 then
-        (match readArgs cm p with
-         | (some e, p) => ((b, some e), p)
-         | (none, p) =>
-           match skipSp cm p with
-           | (none, p) => ((0, some ioErr), p)
-           | (some b, p) => ((b, none), p))
-      else ((b, none), p)
-    match r3 with
-    | ((_, some e), p) => ((none, some e), p)
-    | ((b, none), p) =>
-      if b != 58 then ((none, some p.perr), p)
-      else
-        let p := reRead p
-        match readType cm p.vfuel p with
-        | ((none, _), p) => ((none, some p.perr), p)          -- "field type missing" overrides
-        | ((some _, some e), p) => ((none, some e), p)
-        | ((some _, none), p) =>
-          match dirLoop cm p with
-          | (some e, p) => ((none, some e), p)
-          | (none, p) => ((some tok, none), p)
+  match fieldHead cm p with
+  | (((tok, b), _), p) =>
+    if b == 0 then ((none, none), p)              -- swallows whatever error the head met
+    else
+      -- b ≠ 0 implies err == nil here
+      match fieldArgs cm b p with
+      | ((_, some e), p) => ((none, some e), p)
+      | ((b, none), p) =>
+        if b != 58 then ((none, some p.perr), p)
+        else
+          match readType cm (reRead p).vfuel (reRead p) with
+          | ((none, _), p) => ((none, some p.perr), p)          -- "field type missing" overrides
+          | ((some _, some e), p) => ((none, some e), p)
+          | ((some _, none), p) =>
+            match dirLoop cm p with
+            | (some e, p) => ((none, some e), p)
+            | (none, p) => ((some tok, none), p)
 
 /-- `readFields` (the opening brace has been consumed by the caller) -/
 def readFields : Nat → P → List (List UInt8) → Option Err × P
@@ -156,55 +154,39 @@ def readFields : Nat → P → List (List UInt8) → Option Err × P
           | none => (some dupErr, p)
           | some names => readFields n p names
 
+/-- `if err == nil && b != ':' { err = … }; if err == nil { readByte; f.Type, err = readType; nil type && err == nil → error }` -/
+def inputFieldType (b : UInt8) (p : P) : Option Err × P :=
+  if b != 58 then (some p.perr, p)
+  else
+    match readType cm (reRead p).vfuel (reRead p) with
+    | ((none, none), p) => (some p.perr, p)
+    | ((_, e), p) => (e, p)
+
+/-- `if err == nil { b, err = p.skipSpace() }` — `b` keeps its old value when there already was an error -/
+def afterType (b : UInt8) (r : Option Err × P) : (UInt8 × Option Err) × P :=
+  match r with
+  | (some e, p) => ((b, some e), p)
+  | (none, p) =>
+    match skipSp cm p with
+    | (none, p) => ((0, some ioErr), p)
+    | (some b, p) => ((b, none), p)
+
+/-- `if b == '=' { readByte; f.Default, err = p.readValue() }` — not guarded by `err == nil` -/
+def inputDefaultVal (r : (UInt8 × Option Err) × P) : Option Err × P :=
+  if r.1.1 == 61 then readValue cm r.2.vfuel (reRead r.2) else (r.1.2, r.2)
+
 /-- `readInputField` -/
 def readInputField (p : P) : (Option (List UInt8) × Option Err) × P :=
-  let r1 : (List UInt8 × Option Err) × P :=
-    match readDesc cm p with
-    | (some e, p) => (([], some e), p)
-    | (none, p) =>
-      match readToken cm p with
-      | ((t, true), p) => ((t, some ioErr), p)
-      | ((t, false), p) => ((t, none), p)
-  let tok := r1.1.1
-  let r2 : (UInt8 × Option Err) × P :=
-    match r1.1.2 with
-    | some e => ((0, some e), r1.2)
-    | none =>
-      match skipSp cm r1.2 with
-      | (none, p) => ((0, some ioErr), p)
-      | (some b, p) => ((b, none), p)
-  let b := r2.1.1
-  let p := r2.2
-  if b == 0 then ((none, none), p)
-  else
-    -- err == nil here.  if err == nil && b != ':' { err = … }
-    let e1 : Option Err := if b != 58 then some p.perr else none
-    -- if err == nil { readByte; f.Type, err = readType; nil type && err == nil → error }
-    let r3 : Option Err × P :=
-      match e1 with
-      | some e => (some e, p)
-      | none =>
-        let p := reRead p
-        match readType cm p.vfuel p with
-        | ((none, none), p) => (some p.perr, p)
-        | ((_, e), p) => (e, p)
-    -- if err == nil { b, err = p.skipSpace() }      (b keeps its old value otherwise)
-    let r4 : (UInt8 × Option Err) × P :=
-      match r3 with
-      | (some e, p) => ((b, some e), p)
-      | (none, p) =>
-        match skipSp cm p with
-        | (none, p) => ((0, some ioErr), p)
-        | (some b, p) => ((b, none), p)
-    -- if b == '=' { readByte; f.Default, err = p.readValue() }      — not guarded by err == nil
-    let r5 : Option Err × P :=
-      if r4.1.1 == 61 then readValue cm r4.2.vfuel (reRead r4.2) else (r4.1.2, r4.2)
-    match r5 with
-    | (some e, p) => ((none, some e), p)
-    | (none, p) =>
-      match dirLoop cm p with
+  match fieldHead cm p with
+  | (((tok, b), _), p) =>
+    if b == 0 then ((none, none), p)
+    else
+      match inputDefaultVal cm (afterType cm b (inputFieldType cm b p)) with
       | (some e, p) => ((none, some e), p)
-      | (none, p) => ((some tok, none), p)
+      | (none, p) =>
+        match dirLoop cm p with
+        | (some e, p) => ((none, some e), p)
+        | (none, p) => ((some tok, none), p)
 
 /-- `readInputFields` -/
 def readInputFields : Nat → P → List (List UInt8) → Option Err × P
@@ -300,13 +282,13 @@ def implLoop : Nat → P → Nat → (Nat × Option Err) × P
     match skipSp cm p with
     | (none, p) => ((cnt, some ioErr), p)            -- err ≠ nil: either `break` (cnt > 0) or loop test fails
     | (some b, p) =>
-      let go (p : P) : (Nat × Option Err) × P :=
-        match readType cm p.vfuel p with
+      if 0 < cnt && b != 38 then ((cnt, none), p)
+      else
+        -- after the first interface the `&` is re-read
+        match readType cm (if 0 < cnt then reRead p else p).vfuel (if 0 < cnt then reRead p else p) with
         | ((none, e), p) => ((cnt, e), p)            -- break
         | ((some _, some e), p) => ((cnt + 1, some e), p)
         | ((some _, none), p) => implLoop n p (cnt + 1)
-      if 0 < cnt then (if b != 38 then ((cnt, none), p) else go (reRead p))
-      else go p
 
 /-- `readImplements` -/
 def readImplements (p : P) : Option Err × P :=
@@ -355,13 +337,11 @@ def unionLoop : Nat → P → Nat → Option Err × P
     match skipSp cm p with
     | (none, p) => (some ioErr, p)
     | (some b, p) =>
-      let go (p : P) : Option Err × P :=
-        match readType cm p.vfuel p with
+      if b != 124 && 0 < cnt then (none, p)
+      else
+        match readType cm (if b == 124 then reRead p else p).vfuel (if b == 124 then reRead p else p) with
         | ((none, _), p) => (none, p)
         | ((some _, _), p) => unionLoop n p (cnt + 1)
-      if b == 124 then go (reRead p)
-      else if 0 < cnt then (none, p)
-      else go p
 
 /-- `readUnion` -/
 def readUnion (p : P) : (List UInt8 × Option Err) × P :=
@@ -382,13 +362,11 @@ def onLoop : Nat → P → Nat → Option Err × P
     match skipSp cm p with
     | (none, p) => (some ioErr, p)
     | (some b, p) =>
-      let go (p : P) : Option Err × P :=
-        match readToken cm p with
+      if b != 124 && 0 < cnt then (none, p)
+      else
+        match readToken cm (if b == 124 then reRead p else p) with
         | ((_, true), p) => (some ioErr, p)
         | ((tok, false), p) => if tok.isEmpty then (none, p) else onLoop n p (cnt + 1)
-      if b == 124 then go (reRead p)
-      else if 0 < cnt then (none, p)
-      else go p
 
 /-- `readDirective` -/
 def readDirective (p : P) : (List UInt8 × Option Err) × P :=
@@ -446,8 +424,11 @@ def top (cfg : Cfg) : Nat → P → Bool → ((Option Def × Bool) × Option Err
       else
         match readDef cm tok p with
         | none => (((none, x), some p.perr), p)
-        | some ((kind, (name, some e)), p) => let _ := kind; let _ := name; (((none, x), some e), p)
+        | some ((_, (_, some e)), p) => (((none, x), some e), p)
         | some ((kind, (name, none)), p) => (((some ⟨kind, name, x⟩, false), none), p)
+
+/-- `if b == '"' { desc, err = p.readDesc() }` -/
+def descOpt (b : UInt8) (p : P) : Option Err × P := if b == 34 then readDesc cm p else (none, p)
 
 /-- the main loop of `parseSDL` -/
 def mainLoop (cfg : Cfg) : Nat → P → Bool → List Def → (List Def × Option Err) × P
@@ -458,8 +439,7 @@ def mainLoop (cfg : Cfg) : Nat → P → Bool → List Def → (List Def × Opti
       match skipSp cm p with
       | (none, p) => ((acc.reverse, some ioErr), p)
       | (some b, p) =>
-        let r : Option Err × P := if b == 34 then readDesc cm p else (none, p)
-        match r with
+        match descOpt cm b p with
         | (some e, p) => ((acc.reverse, some e), p)
         | (none, p) =>
           match top cm cfg p.vfuel p x with
